@@ -6,11 +6,12 @@
 //!               final-state comparisons.
 use crate::comp::PlainSeg;
 use chrono::Duration;
-use grin_chain::txhashset::{BitmapChunk, BitmapSegment};
+use grin_chain::txhashset::{BitmapAccumulator, BitmapChunk, BitmapSegment};
 use grin_chain::types::{NoStatus, NoopAdapter};
 use grin_chain::{Chain, Options, SyncState};
 use grin_core::core::hash::{Hash, Hashed};
 use grin_core::core::pmmr::segment::{Segment, SegmentIdentifier, SegmentType};
+use grin_core::core::pmmr::ReadablePMMR;
 use grin_core::core::{
 	Block, BlockHeader, FeeFields, KernelFeatures, OutputIdentifier, Transaction, TxKernel,
 };
@@ -214,6 +215,7 @@ pub fn run(args: &Args) -> i32 {
 			println!("{}", cfg!(seg_hook));
 			0
 		}
+		Some("bmsize") => bmsize_phase(args),
 		Some("build") => build_phase(args),
 		Some("run") => run_phase(args),
 		_ => {
@@ -377,6 +379,50 @@ fn build_phase(args: &Args) -> i32 {
 		json!({"archive_height": archive.height, "spends": n_spends, "outputs": commits.len(),
 			"nseg": TREES.iter().map(|t| seginfo[*t]["nseg"].clone()).collect::<Vec<_>>(), "zip_ok": zip_ok})
 	);
+	0
+}
+
+// ---------------------------------------------------------------------------------------------
+// component: the bitmap MMR size the desegmenter expects for an archive header with n outputs (cases from
+// Desegmenter.tla: ExpectedBitmapMMRSize) against Desegmenter::expected_bitmap_mmr_size and against the MMR of
+// a real BitmapAccumulator (what a serving node has) for n outputs whose last one is unspent.
+
+fn bmsize_phase(args: &Args) -> i32 {
+	let dir = args.req("dir").to_string();
+	let _ = fs::remove_dir_all(&dir);
+	fs::create_dir_all(&dir).unwrap();
+	let cases = read_ndjson(args.req("cases"));
+	let mut out = NdWriter::create(args.req("out"));
+	let kc = keychain();
+	let pb = ProofBuilder::new(&kc);
+	let gr = reward::output(&kc, &pb, &kid(1, 0), 0, false).unwrap();
+	let mut g = genesis::genesis_dev().with_reward(gr.0.clone(), gr.1);
+	g.header.output_mmr_size = 1;
+	g.header.kernel_mmr_size = 1;
+	let chain = init_chain(&format!("{}/chain_data", dir), &g);
+	for c in &cases {
+		let n = c["outputs"].as_u64().unwrap();
+		let mut h = g.header.clone();
+		h.height = 100 + n; // a distinct header per case (the chain caches one desegmenter per header)
+		h.output_mmr_size = grin_core::core::pmmr::insertion_to_pmmr_index(n);
+		let spec_out_size = c["output_mmr_size"].as_u64().unwrap();
+		let real = catch_unwind(AssertUnwindSafe(|| -> Result<u64, String> {
+			let d = chain.desegmenter(&h).map_err(|e| format!("{}", e))?;
+			let g = d.read();
+			Ok(g.as_ref().unwrap().expected_bitmap_mmr_size())
+		}));
+		let desegmenter = match real {
+			Ok(Ok(x)) => json!(x),
+			Ok(Err(e)) => json!(format!("err: {}", e)),
+			Err(_) => json!("panic"),
+		};
+		let mut acc = BitmapAccumulator::new();
+		acc.init(vec![n - 1], n).expect("accumulator");
+		let serving = acc.readonly_pmmr().unpruned_size();
+		out.put(&json!({"outputs": n, "output_mmr_size_ok": spec_out_size == h.output_mmr_size,
+			"spec": c["bitmap_mmr_size"], "desegmenter": desegmenter, "serving": serving}));
+	}
+	out.finish();
 	0
 }
 
